@@ -139,6 +139,13 @@ class Run:
             seen_known.add(f["key"])
             lines.append("KNOWN-FINDING: property=%s %s -- %s" % (self.pid, f["key"], known_keys[f["key"]]["what"]))
         replay_dir = os.path.join(self.evidence_dir, 'replay')
+        if os.path.isdir(replay_dir):
+            for fn in os.listdir(replay_dir):
+                if fn.startswith(self.pid + '-'):
+                    try:
+                        os.remove(os.path.join(replay_dir, fn))
+                    except OSError:
+                        pass
         vio_records = []
         if violations and code != 2:
             os.makedirs(replay_dir, exist_ok=True)
